@@ -52,8 +52,8 @@ Verdict(kind, c) ==
     [] kind = "args" ->          \* a list; a str/bytes is admitted deliberately (router pass-through of serialized payload)
          IF c \in {"list_empty", "list_ints", "list_strs", "list_mixed", "ff_ok", "ff_bad"} THEN "accept"
          ELSE IF c \in StrC \cup {"bytes", "null"} THEN "either" ELSE "reject"
-    [] kind = "kwargs" -> IF c \in {"dict_empty", "dict_str"} THEN "accept"
-                          ELSE IF c \in StrC \cup {"bytes", "null", "dict_intkey"} THEN "either" ELSE "reject"
+    [] kind = "kwargs" -> IF c \in {"dict_empty", "dict_str"} THEN "accept"          \* keyword argument names are strings, every one of them
+                          ELSE IF c \in StrC \cup {"bytes", "null"} THEN "either" ELSE "reject"
     [] kind = "strlist" -> IF c \in {"list_strs"} THEN "accept" ELSE IF c \in {"list_empty"} THEN "either" ELSE "reject"
     [] kind = "idlist" -> IF c \in {"list_ints"} THEN "accept" ELSE IF c \in {"list_empty"} THEN "either" ELSE "reject"
     [] kind = "enum" -> IF c = "str_enum" THEN "accept" ELSE "reject"
